@@ -55,12 +55,14 @@ def plan(tier, seed):
     for i in range(4 if q else 16):
         jobs.append({"name": "lockrand%02d" % i, "spec": {"kind": "lockrand", "n": 700 if q else 30000}})
     jobs.append({"name": "stress", "spec": {"kind": "stress", "seconds": 4 if q else 60}})
+    for i in range(2 if q else 8):
+        jobs.append({"name": "edwards%02d" % i, "spec": {"kind": "edwards", "n": 4 if q else 24}})
     return jobs
 
 
 def mandatory_bins(tier):
     b = ["points_trial", "preempt_in:_maybe_precompute", "preempt_in:scale", "shared_generator_fresh_table", "shared_public_point_unscaled", "op_a:" + "mulk", "op_b:verifies", "op_b:pickle",
-         "lock_cfg:1R+1W", "lock_cfg:2R", "lock_cfg:2R+1W", "lock_cfg:1R+2W", "lock_cfg:1R+1W x2", "lock_complete_exploration", "two_readers_hold_together", "lock_random_line_schedules", "uncontrolled_stress"]
+         "lock_cfg:1R+1W", "lock_cfg:2R", "lock_cfg:2R+1W", "lock_cfg:1R+2W", "lock_cfg:1R+1W x2", "lock_complete_exploration", "two_readers_hold_together", "lock_random_line_schedules", "uncontrolled_stress", "edwards_generator_first_use_by_concurrent_threads"]
     if tier != "quick":
         b += ["lock_cfg:2R+2W", "lock_cfg:3R+1W"]
     return b
@@ -198,9 +200,124 @@ def run_points(ns, ctx, spec):
                     ctx.violation("shared_object_damaged_after_concurrent_use:" + kind, {"exc": fmt_exc(e)}, rp)
             ctx.mon("preemption_trials", len(ks))
         ctx.add_extra("distinct_preemption_points", len(points_seen))
+        held = held_real_locks(ns)
+        ctx.mon("quiescent_lock_scan")
+        if held:
+            ctx.violation("package_level_lock_left_held_after_all_threads_finished", {"locks": held, "after": "point operations"}, {"kind": "points", "curve": cv.name, "pairs": spec["pairs"]})
         ctx.sample({"kind": "points", "curve": cv.name, "pairs": spec["pairs"], "preemption_points": len(points_seen)})
     finally:
         pre.close()
+
+
+def held_real_locks(ns):
+    """module-level and class-level locks of the ecdsa package that are held although no thread of the workload is running
+    any more (a lock taken on some path and never given back)"""
+    import sys
+
+    prefix = ns.ecdsa.__name__
+    out = []
+    for mname, mod in list(sys.modules.items()):
+        if mod is None or not (mname == prefix or mname.startswith(prefix + ".")) or ".test_" in mname:
+            continue
+        for name, val in list(vars(mod).items()):
+            cands = [(name, val)]
+            if isinstance(val, type) and val.__module__ == mname:
+                cands += [(name + "." + an, av) for an, av in vars(val).items()]
+            for nm, v in cands:
+                if isinstance(v, _REAL_LOCK_TYPES):
+                    try:
+                        if v.locked() if hasattr(v, "locked") else not v.acquire(False):
+                            out.append(mname.rsplit(".", 1)[-1] + "." + nm)
+                    except Exception:
+                        pass
+    return out
+
+
+def run_edwards(ns, ctx, spec):
+    """first use of fresh Edwards generator-type points (lazy table) by several threads at once, interleaved at every source line
+    of the table construction; results against sequential values; afterwards no package-level lock may be left held and a
+    further first use on another point must complete"""
+    EC = ns.ellipticcurve
+    rng = ctx.rng
+    mon = sys.monitoring
+    TOOL = 5
+    mon.use_tool_id(TOOL, "bvm-edw-yield")
+    PE = EC.PointEdwards
+    codes = [v.__code__ for v in vars(PE).values() if hasattr(v, "__code__")]
+    count = [0]
+
+    def on_line(code, line):
+        count[0] += 1
+        if count[0] < 40000:
+            time.sleep(0.0001)
+
+    mon.register_callback(TOOL, mon.events.LINE, on_line)
+
+    def fresh(cv):
+        g = cv.generator
+        return PE(g.curve(), int(g.x()), int(g.y()), 1, int(g.x()) * int(g.y()), int(g.order()), generator=True)
+
+    def aff(P):
+        return (int(P.x()), int(P.y()))
+
+    try:
+        for trial in range(spec["n"]):
+            cv = [c for c in ns.curves.curves if c.name == ("Ed25519", "Ed448")[trial % 2]][0]
+            other = [c for c in ns.curves.curves if c.name == ("Ed448", "Ed25519")[trial % 2]][0]
+            nthreads = (2, 3)[trial // 2 % 2]
+            ks = [rng.randrange(2, int(cv.order)) for _ in range(nthreads)]
+            want = [aff(fresh(cv) * k) for k in ks]
+            S = fresh(cv)
+            for c in codes:
+                mon.set_local_events(TOOL, c, mon.events.LINE)
+            res = [None] * nthreads
+            bar = threading.Barrier(nthreads)
+
+            def worker(i):
+                try:
+                    bar.wait(30)
+                    res[i] = ("ok", aff(S * ks[i]))
+                except BaseException as e:  # noqa
+                    res[i] = ("exc", repr(e))
+
+            ths = [threading.Thread(target=worker, args=(i,), daemon=True) for i in range(nthreads)]
+            for t in ths:
+                t.start()
+            for t in ths:
+                t.join(180)
+            for c in codes:
+                mon.set_local_events(TOOL, c, 0)
+            ctx.ev(nthreads)
+            ctx.bin("edwards_generator_first_use_by_concurrent_threads")
+            ctx.distinct("edwards", cv.name, trial, ks)
+            rp = {"kind": "edwards", "curve": cv.name, "threads": nthreads}
+            if any(t.is_alive() for t in ths):
+                ctx.violation("edwards_first_use_does_not_return", {"curve": cv.name, "held_locks": held_real_locks(ns)}, rp)
+                break
+            for i, r in enumerate(res):
+                if r != ("ok", want[i]):
+                    ctx.violation("edwards_concurrent_first_use_returns_other_result", {"curve": cv.name, "got": r, "expected": want[i]}, rp)
+            held = held_real_locks(ns)
+            ctx.mon("quiescent_lock_scan")
+            if held:
+                ctx.violation("package_level_lock_left_held_after_all_threads_finished", {"locks": held, "after": "concurrent first use of an Edwards generator"}, rp)
+                break
+            # a later first use of another point still completes
+            T = fresh(other)
+            box = []
+            t3 = threading.Thread(target=lambda: box.append(aff(T * 7)), daemon=True)
+            t3.start()
+            t3.join(120)
+            if t3.is_alive() or box != [aff(fresh(other) * 7)]:
+                ctx.violation("edwards_first_use_does_not_return" if t3.is_alive() else "edwards_concurrent_first_use_returns_other_result", {"curve": other.name, "held_locks": held_real_locks(ns)}, rp)
+                break
+        ctx.mon("line_yields_injected", count[0])
+        ctx.sample({"kind": "edwards", "trials": spec["n"], "line_yields": count[0]})
+    finally:
+        for c in codes:
+            mon.set_local_events(TOOL, c, 0)
+        mon.register_callback(TOOL, mon.events.LINE, None)
+        mon.free_tool_id(TOOL)
 
 
 # ======================================================================================= lock
@@ -257,6 +374,7 @@ def lock_bodies(ns, ex, r, w, rep):
     lock = ns.rwlock.RWLock()
     ex.adopted_locks = adopt_real_locks(ns, lock)
     ex.rw = lock
+    ex.idle_state = _plain_state(lock)  # counters / sets of a lock nobody has touched yet
 
     def reader():
         for _ in range(rep):
@@ -277,18 +395,32 @@ def lock_bodies(ns, ex, r, w, rep):
     return [reader] * r + [writer] * w
 
 
+def _plain_state(o, depth=0):
+    """the plain-data attributes of the lock object and of the helper objects it owns (counters, sets of thread ids, flags),
+    whatever they are called: part of the visited-state key and of the quiescence check"""
+    out = []
+    for name, val in sorted(vars(o).items()):
+        if isinstance(val, (bool, int, str, type(None))):
+            out.append((name, val))
+        elif isinstance(val, (set, frozenset, list, tuple, dict)):
+            out.append((name, repr(sorted(val, key=repr)) if not isinstance(val, dict) else repr(sorted(val.items(), key=repr))))
+        elif hasattr(val, "__dict__") and type(val).__module__ == type(o).__module__ and depth < 2:
+            out.append((name, _plain_state(val, depth + 1)))
+    return tuple(out)
+
+
+def _idle_plain_state(ns):
+    return _plain_state(ns.rwlock.RWLock())
+
+
 def lock_state(ex):
-    rw = ex.rw
-    rs = rw._RWLock__read_switch
-    ws = rw._RWLock__write_switch
     return (
         tuple(sorted(ex.progress.items())),
         tuple(sorted((tid, (op[0], getattr(op[1], "name", None)) if op and len(op) > 1 else (op[0] if op else None)) for tid, op in ex.pending.items())),
         tuple(sorted(ex.done)),
         tuple(l.owner for l in ex.locks),
         tuple(sorted(ex.holders.items())),
-        rs._LightSwitch__counter,
-        ws._LightSwitch__counter,
+        _plain_state(ex.rw),
     )
 
 
@@ -302,8 +434,8 @@ def judge_execution(ctx, ex, cfg, rp):
     rw = getattr(ex, "rw", None)
     if rw is not None and ex.deadlock is None and not ex.failed and not ex.violations and not ex.pruned:
         # quiescent structural invariant: everything released, counters back to zero
-        if any(l.owner is not None for l in ex.locks) or rw._RWLock__read_switch._LightSwitch__counter != 0 or rw._RWLock__write_switch._LightSwitch__counter != 0:
-            ctx.violation("rwlock:not_quiescent_after_all_threads_finished", {"cfg": cfg, "owners": [l.owner for l in ex.locks], "schedule": [c for c, _ in ex.trace]}, rp)
+        if any(l.owner is not None for l in ex.locks) or _plain_state(rw) != ex.idle_state:
+            ctx.violation("rwlock:not_quiescent_after_all_threads_finished", {"cfg": cfg, "owners": [l.owner for l in ex.locks], "state": repr(_plain_state(rw))[:300], "schedule": [c for c, _ in ex.trace]}, rp)
 
 
 def run_lock(ns, ctx, spec):
@@ -473,6 +605,8 @@ def run_shard(spec, ctx):
         run_lock(ns, ctx, spec)
     elif k == "lockrand":
         run_lockrand(ns, ctx, spec)
+    elif k == "edwards":
+        run_edwards(ns, ctx, spec)
     else:
         run_stress(ns, ctx, spec)
 
@@ -491,6 +625,8 @@ def replay(rec, ctx):
             restore_module_locks(ns)
         ctx.ev()
         judge_execution(ctx, ex, rec.get("cfg", "replay"), rec)
+    elif k == "edwards":
+        run_edwards(ns, ctx, {"n": 4})
     elif k == "points":
         run_points(ns, ctx, {"curve": rec["curve"], "pairs": [(rec["shared"], rec["op_a"], rec["op_b"])], "step": 1})
     else:
